@@ -233,6 +233,31 @@ def run(chk: core.Check, replay=None) -> None:
             chk.violation("C12.EditedWindListNotFollowed", {"source": "edited-winds", "kind": ["ends-traded", "first-moved-behind", "last-moved-in-front"][kind],
                                                             "via_setter": bool(i % 2)},
                           {"winds_before": spec_w, "winds_now": now, "first_differing_row": first, "unchanged_by_the_edit": after == before})
+    # ---- two holders of ONE wind list (a shot built from the caller's list and a shallow copy of that shot / a second shot built
+    #      from the same list): the winds of one are re-assigned through the setter - mirrored - and both are fired: the first still
+    #      flies in the winds it was given, the second in the mirrored ones (windage negated, twist 0)
+    import copy as _copy
+    for i in range(6 if thorough else 3):
+        core.reset_world()
+        pbase = shots.gen_shot(rng, winds=0, spin=False, look=0.0)
+        L = [m.Wind(U.MPH(10), U.Degree(90), U.Yard(300)), m.Wind(U.MPH(15), U.Degree(60), U.Yard(2000))]
+        mirrored = [m.Wind(U.MPH(10), U.Degree(-90), U.Yard(300)), m.Wind(U.MPH(15), U.Degree(-60), U.Yard(2000))]
+        base = shots.build_shot(dict(pbase, winds=[]))
+        ref = m.Shot(base.weapon, base.ammo, atmo=base.atmo, winds=L)
+        rows_of = lambda sh: [scen.row_fp(r) for r in shots.build_calc({"max_calc_step_size_feet": 2.0}).fire(sh, U.Yard(600), U.Yard(100)).trajectory]
+        windage_of = lambda sh: [r.windage.raw_value for r in shots.build_calc({"max_calc_step_size_feet": 2.0}).fire(sh, U.Yard(600), U.Yard(100)).trajectory]
+        before = rows_of(ref)
+        other = _copy.copy(ref) if i % 2 == 0 else m.Shot(base.weapon, base.ammo, atmo=base.atmo, winds=L)
+        other.winds = mirrored
+        after = rows_of(ref)
+        wa, wb = windage_of(ref), windage_of(other)
+        chk.count(1, ("shared-wind-list", i))
+        chk.stratum("two_shots_holding_one_wind_list")
+        if after != before:
+            chk.violation("C12.WindsOfAnotherShotChangedThisOne", {"source": "shared-wind-list", "second_holder": "copy" if i % 2 == 0 else "same-list"},
+                          {"first_differing_row": next((j for j, (a_, b_) in enumerate(zip(after, before)) if a_ != b_), None)})
+        elif [-x_ for x_ in wb] != wa or not all(x_ > 0 for x_ in wa[1:]):
+            chk.violation("C12.Mirror", {"source": "shared-wind-list", "second_holder": "copy" if i % 2 == 0 else "same-list"}, {"windage": wa, "mirrored": wb})
     by_tid = loopsuite.validate(chk, "C12", outs, pairs)
     for o in outs:
         if o["tid"] in by_tid and o.get("pair_info"):
@@ -241,7 +266,7 @@ def run(chk: core.Check, replay=None) -> None:
         (l for l in outs[0]["lines"] if l["ev"] == "Iter"), None)})
     chk.sample({"pair_lines": pairs[:3]})
     chk.sample({"tlc_behaviour": {k: v for k, v in behs[0].items() if k != "consts"}})
-    chk.require_strata(["wind_ends_edited_in_place_after_a_fire", "lone_wind_with_finite_end", "default_wind_of_another_shot_edited", "obj_duplicate_wind_ends", "duplicate_until", "zero_until", "switch_inside_range", "pair_OrderInsensitive",
+    chk.require_strata(["two_shots_holding_one_wind_list", "wind_ends_edited_in_place_after_a_fire", "lone_wind_with_finite_end", "default_wind_of_another_shot_edited", "obj_duplicate_wind_ends", "duplicate_until", "zero_until", "switch_inside_range", "pair_OrderInsensitive",
                         "pair_Causal", "pair_Mirror", "mirror_with_spin", "pair_ZeroWindEqualsNoWind", "pair_Signs"])
     chk.exhaustive = False
     chk.rule.append("design: Integrator.tla (C12_SegmentByPosition) on wind-end lists with duplicates, zeros and ends beyond range; "
